@@ -124,12 +124,20 @@ impl<I: SendmsgSyscall> SendmsgSyscall for NioSendmsgSyscall<I> {
                         if blocking {
                             set_blocking(fd);
                         }
+                        if sent > 0 {
+                            // report the bytes moved so far, not the result of the last call
+                            r = sent.try_into().expect("sent overflow");
+                        }
                         return r;
                     }
                 } else if error_kind != ErrorKind::Interrupted {
                     std::mem::forget(vec);
                     if blocking {
                         set_blocking(fd);
+                    }
+                    if sent > 0 {
+                        // report the bytes moved so far, not the result of the last call
+                        r = sent.try_into().expect("sent overflow");
                     }
                     return r;
                 }
@@ -141,6 +149,10 @@ impl<I: SendmsgSyscall> SendmsgSyscall for NioSendmsgSyscall<I> {
         std::mem::forget(vec);
         if blocking {
             set_blocking(fd);
+        }
+        if sent > 0 {
+            // report the bytes moved so far, not the result of the last call
+            r = sent.try_into().expect("sent overflow");
         }
         r
     }
